@@ -43,6 +43,8 @@ type report struct {
 	MapRanges        []string       `json:"map_ranges"`
 	SyncImports      []string       `json:"sync_imports_rewritten"`
 	Uninstrumented   []string       `json:"uninstrumented_sites"`
+	GoStatements     []string       `json:"go_statements_rewritten"`
+	Unsupported      []string       `json:"unsupported_concurrency"`
 	Light            bool           `json:"light"`
 	PackagesAnalysed []string       `json:"packages"`
 }
@@ -52,6 +54,7 @@ func main() {
 	out := flag.String("out", "", "output directory")
 	vrt := flag.String("vrt", "", "directory holding verifrt/, vsync/, vatomic/")
 	light := flag.Bool("light", false, "map ranges only (no field hooks, real sync)")
+	flag.BoolVar(&withHooks, "hooks", true, "include the files tagged `verif` (the committed hooks)")
 	flag.Parse()
 	if *out == "" || *vrt == "" {
 		fmt.Fprintln(os.Stderr, "usage: instr -repo R -out O -vrt V")
@@ -117,6 +120,7 @@ func main() {
 				Selections: map[*ast.SelectorExpr]*types.Selection{},
 				Types:      map[ast.Expr]types.TypeAndValue{},
 				Uses:       map[*ast.Ident]types.Object{},
+				Instances:  map[*ast.Ident]types.Instance{},
 			}
 			conf := types.Config{Importer: imp, Error: func(error) {}}
 			ipath := modPath
@@ -134,9 +138,13 @@ func main() {
 				// there multiply the cost of every block decode by 5 and the state
 				// is never shared
 				doFields := doFields && !strings.HasPrefix(filepath.Base(kept[i]), "ipldsch_")
+				if doFields {
+					findUnsupported(fset, f, info, &rep)
+				}
 				n := rewriteFile(fset, f, info, doFields, &rep)
 				syncN := 0
 				if doFields {
+					n += rewriteGoStmts(fset, f, info, &rep)
 					syncN = rewriteSyncImports(f, kept[i], &rep)
 				}
 				if n == 0 && syncN == 0 {
@@ -166,6 +174,12 @@ func main() {
 	} {
 		overlay[filepath.Join(*repo, sub.dst)] = filepath.Join(*vrt, sub.dir, sub.file)
 	}
+	if len(rep.Unsupported) > 0 && !*light {
+		// channels, select, timers: waiting the cooperative scheduler cannot see.
+		// No full overlay is produced; run.sh falls back to the light one (real
+		// sync, schedule points at block loads only).
+		fatal("concurrency constructs outside the scheduler's model: %s", strings.Join(rep.Unsupported, "; "))
+	}
 	js, _ := json.MarshalIndent(map[string]any{"Replace": overlay}, "", " ")
 	if err := os.WriteFile(filepath.Join(*out, "overlay.json"), js, 0o644); err != nil {
 		fatal("%v", err)
@@ -174,6 +188,8 @@ func main() {
 	os.WriteFile(filepath.Join(*out, "report.json"), rj, 0o644)
 	fmt.Printf("instr: %d files rewritten, %d field accesses, %d map ranges, %d uninstrumented sites\n", len(rep.Files), rep.FieldRewrites, len(rep.MapRanges), len(rep.Uninstrumented))
 }
+
+var withHooks = true
 
 func fatal(f string, a ...any) {
 	fmt.Fprintf(os.Stderr, "instr: "+f+"\n", a...)
@@ -191,9 +207,13 @@ func buildable(f *ast.File) bool {
 			if strings.HasPrefix(c.Text, "//go:build ") {
 				expr := strings.TrimSpace(strings.TrimPrefix(c.Text, "//go:build "))
 				switch expr {
-				case "verif", "overlay", "verif && overlay":
+				case "verif", "verif && overlay":
+					return withHooks
+				case "overlay":
 					return true
-				case "!verif", "ignore":
+				case "!verif":
+					return !withHooks
+				case "ignore":
 					return false
 				}
 				return !strings.Contains(expr, "ignore")
@@ -570,4 +590,149 @@ func markWriteExpr(e ast.Expr, w map[ast.Expr]bool) {
 	case *ast.ParenExpr:
 		markWriteExpr(x.X, w)
 	}
+}
+
+// findUnsupported records the constructs whose blocking the cooperative
+// scheduler cannot see: channel operations, select, timers, goroutine helpers
+// of other modules.
+func findUnsupported(fset *token.FileSet, f *ast.File, info *types.Info, rep *report) {
+	at := func(n ast.Node, what string) {
+		pos := fset.Position(n.Pos())
+		rep.Unsupported = append(rep.Unsupported, fmt.Sprintf("%s:%d %s", filepath.Base(pos.Filename), pos.Line, what))
+	}
+	for _, im := range f.Imports {
+		if p, _ := strconv.Unquote(im.Path.Value); strings.HasPrefix(p, "golang.org/x/sync") {
+			at(im, "import "+p)
+		}
+	}
+	ast.Inspect(f, func(n ast.Node) bool {
+		switch x := n.(type) {
+		case *ast.SendStmt:
+			at(x, "channel send")
+		case *ast.SelectStmt:
+			at(x, "select")
+		case *ast.UnaryExpr:
+			if x.Op == token.ARROW {
+				at(x, "channel receive")
+			}
+		case *ast.RangeStmt:
+			if tv, ok := info.Types[x.X]; ok && tv.Type != nil {
+				if _, isChan := tv.Type.Underlying().(*types.Chan); isChan {
+					at(x, "range over channel")
+				}
+			}
+		case *ast.CallExpr:
+			if se, ok := x.Fun.(*ast.SelectorExpr); ok {
+				if id, ok := se.X.(*ast.Ident); ok {
+					if pn, ok := info.Uses[id].(*types.PkgName); ok {
+						switch pn.Imported().Path() + "." + se.Sel.Name {
+						case "time.Sleep", "time.After", "time.AfterFunc", "time.NewTimer", "time.NewTicker", "time.Tick",
+							"context.WithTimeout", "context.WithDeadline", "context.WithTimeoutCause", "context.WithDeadlineCause", "runtime.Gosched":
+							at(x, pn.Imported().Path()+"."+se.Sel.Name)
+						}
+					}
+				}
+			}
+		}
+		return true
+	})
+}
+
+// rewriteGoStmts turns `go f(a, b)` into
+//
+//	{ __vgf := f; __vga0 := a; __vga1 := b; verifrt.Go(func() { __vgf(__vga0, __vga1) }) }
+//
+// (function value and arguments evaluated by the caller, as the language
+// says), so that the explorer's scheduler owns the new goroutine.
+func rewriteGoStmts(fset *token.FileSet, f *ast.File, info *types.Info, rep *report) int {
+	n := 0
+	repl := func(g *ast.GoStmt) ast.Stmt {
+		pos := fset.Position(g.Pos())
+		site := fmt.Sprintf("%s:%d", filepath.Base(pos.Filename), pos.Line)
+		call := g.Call
+		if id, ok := call.Fun.(*ast.Ident); ok {
+			if _, isBuiltin := info.Uses[id].(*types.Builtin); isBuiltin {
+				rep.Unsupported = append(rep.Unsupported, site+" go <builtin>")
+				return nil
+			}
+		}
+		var pre []ast.Stmt
+		fun := call.Fun
+		hoist := true
+		switch x := ast.Unparen(call.Fun).(type) {
+		case *ast.FuncLit:
+			hoist = false
+		case *ast.Ident:
+			if _, isFunc := info.Uses[x].(*types.Func); isFunc {
+				hoist = false
+			}
+		case *ast.SelectorExpr:
+			if info.Selections[x] == nil { // package-qualified
+				if _, isFunc := info.Uses[x.Sel].(*types.Func); isFunc {
+					hoist = false
+				}
+			}
+		case *ast.IndexExpr, *ast.IndexListExpr: // explicit instantiation of a generic function
+			hoist = false
+		}
+		if hoist {
+			pre = append(pre, &ast.AssignStmt{Lhs: []ast.Expr{ast.NewIdent("__vgf")}, Tok: token.DEFINE, Rhs: []ast.Expr{call.Fun}})
+			fun = ast.NewIdent("__vgf")
+		}
+		args := make([]ast.Expr, len(call.Args))
+		for i, a := range call.Args {
+			tv, ok := info.Types[a]
+			inline := !ok || tv.Type == nil || tv.Value != nil || tv.IsNil()
+			if !inline {
+				if b, isBasic := tv.Type.(*types.Basic); isBasic && b.Info()&types.IsUntyped != 0 {
+					inline = true
+				}
+				if _, isTuple := tv.Type.(*types.Tuple); isTuple {
+					inline = true // f(g()) with a multi-valued g: evaluated in the new goroutine (inexact, reported)
+					rep.Uninstrumented = append(rep.Uninstrumented, site+" (go statement with a multi-valued argument: evaluated late)")
+				}
+			}
+			if inline {
+				args[i] = a
+				continue
+			}
+			name := fmt.Sprintf("__vga%d", i)
+			pre = append(pre, &ast.AssignStmt{Lhs: []ast.Expr{ast.NewIdent(name)}, Tok: token.DEFINE, Rhs: []ast.Expr{a}})
+			args[i] = ast.NewIdent(name)
+		}
+		inner := &ast.CallExpr{Fun: fun, Args: args, Ellipsis: call.Ellipsis}
+		lit := &ast.FuncLit{Type: &ast.FuncType{Params: &ast.FieldList{}}, Body: &ast.BlockStmt{List: []ast.Stmt{&ast.ExprStmt{X: inner}}}}
+		spawn := &ast.ExprStmt{X: &ast.CallExpr{Fun: &ast.SelectorExpr{X: ast.NewIdent("verifrt"), Sel: ast.NewIdent("Go")}, Args: []ast.Expr{lit}}}
+		rep.GoStatements = append(rep.GoStatements, site)
+		n++
+		return &ast.BlockStmt{List: append(pre, spawn)}
+	}
+	fix := func(list []ast.Stmt) {
+		for i, st := range list {
+			switch x := st.(type) {
+			case *ast.GoStmt:
+				if r := repl(x); r != nil {
+					list[i] = r
+				}
+			case *ast.LabeledStmt:
+				if g, ok := x.Stmt.(*ast.GoStmt); ok {
+					if r := repl(g); r != nil {
+						x.Stmt = r
+					}
+				}
+			}
+		}
+	}
+	ast.Inspect(f, func(nd ast.Node) bool {
+		switch x := nd.(type) {
+		case *ast.BlockStmt:
+			fix(x.List)
+		case *ast.CaseClause:
+			fix(x.Body)
+		case *ast.CommClause:
+			fix(x.Body)
+		}
+		return true
+	})
+	return n
 }
